@@ -281,3 +281,39 @@ func TestVerifC13Race(t *testing.T) {
 	}
 	fmt.Printf("C13RACE rounds=%d lookups=%d\n", n, total)
 }
+
+// TestVerifC13Shares: the statistical clause "each node's share of a large key population is
+// roughly proportional to its weight", aggregated over classes of ten nodes so that it is tight:
+// on a ring created with VERIF_BASE virtual nodes per full node, ten nodes are added with Add,
+// ten with AddWithWeight(100), ten with AddWithWeight(50) (interleaved), and VERIF_POP keys are
+// looked up.  Node names and keys are fixed, so the measured shares are a deterministic function
+// of the code; the driver only counts, the check compares with the weight-proportional shares.
+func TestVerifC13Shares(t *testing.T) {
+	base := kit.EnvInt("VERIF_BASE", 150)
+	pop := kit.EnvInt("VERIF_POP", 40000)
+	var ring *hash.ConsistentHash
+	if base == 100 {
+		ring = hash.NewConsistentHash()
+	} else {
+		ring = hash.NewCustomConsistentHash(base, nil)
+	}
+	class := map[any]string{}
+	for i := 0; i < 10; i++ {
+		a, b, c := fmt.Sprintf("10.1.0.%d:6379", i), fmt.Sprintf("10.2.0.%d:6379", i), fmt.Sprintf("10.3.0.%d:6379", i)
+		ring.Add(a)
+		ring.AddWithWeight(b, 100)
+		ring.AddWithWeight(c, 50)
+		class[a], class[b], class[c] = "add", "w100", "w50"
+	}
+	cnt := map[string]int{"add": 0, "w100": 0, "w50": 0, "none": 0}
+	for i := 0; i < pop; i++ {
+		n, ok := ring.Get("share-key:" + strconv.Itoa(i))
+		if !ok {
+			cnt["none"]++
+			continue
+		}
+		cnt[class[n]]++
+	}
+	fmt.Printf("C13SHARE {\"base\":%d,\"pop\":%d,\"add\":%d,\"w100\":%d,\"w50\":%d,\"none\":%d}\n",
+		base, pop, cnt["add"], cnt["w100"], cnt["w50"], cnt["none"])
+}
